@@ -67,11 +67,18 @@ type mcCase struct {
 	Cells float64 `json:"cells"` // spacing = size / cells
 	API   string  `json:"api"`   // search interior searchfilter
 	Iters int     `json:"iters"`
+	// UnitLog2: solid and spacing in units of 2^UnitLog2 (ScaleSolid; an exact rescaling of every lattice point)
+	UnitLog2 int `json:"unit_log2,omitempty"`
 }
 
 func genMC(t *rapid.T) mcCase {
-	return mcCase{Src: genSource(t), Cells: gen.F(t, 2.5, 11, "cells"),
+	c := mcCase{Src: genSource(t), Cells: gen.F(t, 2.5, 11, "cells"),
 		API: rapid.SampledFrom([]string{"search", "interior", "searchfilter"}).Draw(t, "api"), Iters: rapid.IntRange(0, 8).Draw(t, "iters")}
+	if rapid.IntRange(0, 3).Draw(t, "rescaled") == 0 {
+		c.UnitLog2 = rapid.SampledFrom([]int{-40, -30, -20, 20}).Draw(t, "unit_log2")
+		c.Iters = rapid.IntRange(4, 14).Draw(t, "iters2")
+	}
+	return c
 }
 
 func (c mcCase) delta() float64 {
@@ -119,6 +126,12 @@ func checkMC(c mcCase, o *kit.Obs) error {
 	}
 	o.Label("src:" + c.Src.Kind)
 	o.Label("api:" + c.API)
+	if c.UnitLog2 != 0 {
+		k := math.Ldexp(1, c.UnitLog2)
+		solid = model3d.ScaleSolid(solid, k)
+		delta *= k
+		o.Label("rescaled")
+	}
 	// 1. observe the lattice
 	lat := gen.NewRecorder3(solid)
 	model3d.MarchingCubes(lat, delta)
@@ -253,7 +266,8 @@ func checkMC(c mcCase, o *kit.Obs) error {
 		if cl == cr {
 			return fmt.Errorf("vertex %v (axis %d): the closest evaluated points on its edge, %v and %v, are both contained=%v: no inside/outside transition is bracketed", v, axis, l, r, cl)
 		}
-		if w := (hi - lo) / math.Pow(2, float64(c.Iters)); r-l > w*(1+1e-9) {
+		// every midpoint is rounded to the coordinate's own precision: a few ulps of slack per step
+		if w := (hi - lo) / math.Pow(2, float64(c.Iters)); r-l > w*(1+1e-9)+4e-16*math.Max(math.Abs(l), math.Abs(r))*float64(c.Iters+1) {
 			return fmt.Errorf("vertex %v (axis %d): bracket [%v, %v] is wider than spacing/2^%d = %v", v, axis, l, r, c.Iters, w)
 		}
 		if interior != nil {
@@ -268,7 +282,7 @@ func checkMC(c mcCase, o *kit.Obs) error {
 			if q[(axis+1)%3] != v[(axis+1)%3] || q[(axis+2)%3] != v[(axis+2)%3] || q[axis] < lo || q[axis] > hi {
 				return fmt.Errorf("interior point %v of vertex %v is not on the vertex's lattice edge", ip, v)
 			}
-			if d := math.Abs(q[axis] - v[axis]); d > (hi-lo)/math.Pow(2, float64(c.Iters))*(1+1e-9) {
+			if d := math.Abs(q[axis] - v[axis]); d > (hi-lo)/math.Pow(2, float64(c.Iters))*(1+1e-9)+4e-16*math.Abs(v[axis])*float64(c.Iters+1) {
 				return fmt.Errorf("interior point %v is %v away from vertex %v, more than spacing/2^%d", ip, d, v, c.Iters)
 			}
 		}
@@ -290,13 +304,14 @@ func checkMC(c mcCase, o *kit.Obs) error {
 // marching squares
 
 type msCase struct {
-	Kind  string        `json:"kind"` // csg field lattice
-	Tree  *gen.Node2    `json:"tree,omitempty"`
-	Field *gen.Field2   `json:"field,omitempty"`
-	Lat   *gen.Lattice2 `json:"lattice,omitempty"`
-	Cells float64       `json:"cells"`
-	API   string        `json:"api"`
-	Iters int           `json:"iters"`
+	Kind     string        `json:"kind"` // csg field lattice
+	Tree     *gen.Node2    `json:"tree,omitempty"`
+	Field    *gen.Field2   `json:"field,omitempty"`
+	Lat      *gen.Lattice2 `json:"lattice,omitempty"`
+	Cells    float64       `json:"cells"`
+	API      string        `json:"api"`
+	Iters    int           `json:"iters"`
+	UnitLog2 int           `json:"unit_log2,omitempty"`
 }
 
 func genMS(t *rapid.T) msCase {
@@ -311,6 +326,10 @@ func genMS(t *rapid.T) msCase {
 	default:
 		l := gen.Lattice2Gen(t, 7, "lattice")
 		c.Lat = &l
+	}
+	if rapid.IntRange(0, 3).Draw(t, "rescaled") == 0 {
+		c.UnitLog2 = rapid.SampledFrom([]int{-40, -30, -20, 20}).Draw(t, "unit_log2")
+		c.Iters = rapid.IntRange(4, 14).Draw(t, "iters2")
 	}
 	return c
 }
@@ -334,6 +353,12 @@ func checkMS(c msCase, o *kit.Obs) error {
 		return nil
 	}
 	o.Label("src:" + c.Kind)
+	if c.UnitLog2 != 0 {
+		k := math.Ldexp(1, c.UnitLog2)
+		solid = model2d.ScaleSolid(solid, k)
+		delta *= k
+		o.Label("rescaled")
+	}
 	lat := gen.NewRecorder2(solid)
 	model2d.MarchingSquares(lat, delta)
 	var gv [2][]float64
@@ -437,7 +462,7 @@ func checkMS(c msCase, o *kit.Obs) error {
 		if cl == cr {
 			return fmt.Errorf("vertex %v (axis %d): the closest evaluated points on its edge, %v and %v, are both contained=%v", v, axis, l, r, cl)
 		}
-		if w := (hi - lo) / math.Pow(2, float64(c.Iters)); r-l > w*(1+1e-9) {
+		if w := (hi - lo) / math.Pow(2, float64(c.Iters)); r-l > w*(1+1e-9)+4e-16*math.Max(math.Abs(l), math.Abs(r))*float64(c.Iters+1) {
 			return fmt.Errorf("vertex %v: bracket [%v, %v] is wider than spacing/2^%d = %v", v, l, r, c.Iters, w)
 		}
 	}
@@ -510,7 +535,7 @@ func genDC0(t *rapid.T) dcCase {
 		Margin: rapid.SampledFrom([]float64{0, 0.01, 0.2}).Draw(t, "margin"), Mode: rapid.IntRange(0, 2).Draw(t, "mode"),
 		L2: rapid.SampledFrom([]float64{0, 0.01, 1}).Draw(t, "l2"), SVEps: rapid.SampledFrom([]float64{0, 0.01, 0.5}).Draw(t, "sveps"),
 		Repair: rapid.IntRange(0, 2).Draw(t, "repair") == 0, Interior: rapid.Bool().Draw(t, "interior"),
-		Shortcut: rapid.IntRange(0, 4).Draw(t, "shortcut") == 0,
+		Shortcut:  rapid.IntRange(0, 4).Draw(t, "shortcut") == 0,
 		RepairEps: rapid.SampledFrom([]float64{0, 0, 0.05, 0.2, 0.4}).Draw(t, "repaireps")}
 }
 
